@@ -2,6 +2,7 @@ import Martian.Lemmas.Grpc
 import Martian.Props.C11.Bounds
 import Martian.Props.C11.EmptyFrames
 import Martian.Props.C11.Header
+import Martian.Props.C11.Streams
 /-!
 # C11 — gRPC reframing is invariant to DATA fragmentation and compression
 
@@ -11,7 +12,8 @@ They hold for every compression library (`cd : Codec`); the wire round trip assu
 adapter compares lengths without truncation); the only 32-bit limit left is the format's own: a
 payload must fit the `uint32` prefix (`GMsg.ok`, `Props/C11/Bounds.lean`).
 Sub-files: `C11/Bounds.lean` (32-bit prefix arithmetic), `C11/EmptyFrames.lean` (zero-length DATA
-frames), `C11/Header.lean` (`adapter.Header` over the ordered field list, gRPC detection). Vocabulary (`GMsg`, `stream`, `expCalls`, `runFrames`, `emit`,
+frames), `C11/Header.lean` (`adapter.Header` over the ordered field list, gRPC detection),
+`C11/Streams.lean` (several streams through one factory value are independent). Vocabulary (`GMsg`, `stream`, `expCalls`, `runFrames`, `emit`,
 `Stream.run`) is defined in the model file.
 
 An END_STREAM on an *empty* DATA frame while no message is pending is turned by the code into
